@@ -496,6 +496,63 @@ func init() {
 				}
 			}
 			c.Programs += len(invs)
+			// SEVERAL OUTPUT FILES that carry the same texts at different depths: the same description on a type (comment at
+			// indent 0) in one schema and on a member (indent 1) in the others, with a word ending at column 76..83 of the first
+			// line, so that the line breaks depend on the indent.  60 processes; every output file has the same bytes each time
+			wrapDir := filepath.Join(tmp, "cliwrap")
+			_ = os.MkdirAll(wrapDir, 0o755)
+			defsA, propsB, propsC := sgen.M{}, sgen.M{}, sgen.M{}
+			for L := 74; L <= 84; L++ {
+				text := strings.Repeat("w", L-4) + " end and some more words that follow the first line of the comment text"
+				text2 := "A lorem ipsum lorem ipsum " + strings.Repeat("x", L-26) + " tail of the text, long enough to need a third line when it is wrapped at eighty columns or so"
+				defsA[fmt.Sprintf("D%d", L)] = sgen.M{"type": "object", "description": text, "properties": sgen.M{"v": sgen.M{"type": "string", "description": text2}}}
+				propsB[fmt.Sprintf("p%d", L)] = sgen.M{"type": "string", "description": text}
+				propsB[fmt.Sprintf("q%d", L)] = sgen.M{"type": "object", "description": text2, "properties": sgen.M{"v": sgen.M{"type": "integer"}}}
+				propsC[fmt.Sprintf("r%d", L)] = sgen.M{"type": "array", "items": sgen.M{"type": "integer"}, "description": text}
+			}
+			_ = os.WriteFile(filepath.Join(wrapDir, "wa.json"), core.MustJSON(sgen.M{"$id": "urn:w:a", "type": "object", "properties": sgen.M{"n": sgen.M{"type": "integer"}}, "$defs": defsA}), 0o644)
+			_ = os.WriteFile(filepath.Join(wrapDir, "wb.json"), core.MustJSON(sgen.M{"$id": "urn:w:b", "type": "object", "properties": propsB}), 0o644)
+			_ = os.WriteFile(filepath.Join(wrapDir, "wc.json"), core.MustJSON(sgen.M{"$id": "urn:w:c", "type": "object", "properties": propsC}), 0o644)
+			wrapArgs := []string{"--tags", "json"}
+			for _, id := range []string{"a", "b", "c"} {
+				wrapArgs = append(wrapArgs, "--schema-package", "urn:w:"+id+"=example.com/w/"+id, "--schema-output", "urn:w:"+id+"=out/"+id+"/gen.go", "--schema-root-type", "urn:w:"+id+"=Root")
+			}
+			wrapArgs = append(wrapArgs, "wa.json", "wb.json", "wc.json")
+			outputsOf := func(r cliResult) string {
+				var sb strings.Builder
+				for _, id := range []string{"a", "b", "c"} {
+					sb.WriteString("=== out/" + id + "/gen.go\n" + r.Files["out/"+id+"/gen.go"])
+				}
+				return fmt.Sprintf("exit %d\n%s", r.Exit, sb.String())
+			}
+			firstW := outputsOf(runCLI(bin, wrapDir, "", wrapArgs...))
+			c.Eval("cli-processes|several output files, shared comment texts")
+			c.Count("cli repeated processes", fmt.Sprintf("several output files with shared comment texts: %d bytes", len(firstW)))
+			if !strings.HasPrefix(firstW, "exit 0\n") || !strings.Contains(firstW, "type D80 struct") {
+				fails++
+				c.Fail("oracle", "command line, several output files with shared comment texts: the invocation fails or writes no files: "+clip(firstW, 300), M{"kind": "cli-repeat", "args": wrapArgs, "files": listDir(wrapDir)}, false)
+			} else {
+				for rep := 0; rep < 60; rep++ {
+					_ = os.RemoveAll(filepath.Join(wrapDir, "out"))
+					got := outputsOf(runCLI(bin, wrapDir, "", wrapArgs...))
+					if got != firstW {
+						fails++
+						at := 0
+						for at < len(got) && at < len(firstW) && got[at] == firstW[at] {
+							at++
+						}
+						lo := at - 300
+						if lo < 0 {
+							lo = 0
+						}
+						_ = os.RemoveAll(filepath.Join(wrapDir, "out"))
+						c.Fail("oracle", fmt.Sprintf("command line, several output files with shared comment texts: process %d of the same invocation writes other bytes", rep+2),
+							M{"kind": "cli-repeat", "args": wrapArgs, "files": listDir(wrapDir), "first_differs_at": at, "first_outputs": clip(firstW[lo:], 900), "other_outputs": clip(got[lo:], 900)}, false)
+						break
+					}
+				}
+			}
+			c.Programs++
 		}
 		mappingOrderStream(c, &fails)
 		c.FactsVerdict(fails > 0)
